@@ -1,4 +1,12 @@
 """C01 front end never crashes on any source text."""
+REG = dict(
+    engine='E1-enum',
+    technique='bounded-exhaustive enumeration of character strings, token sequences and single-token edits, executed on the real lexer/parser/checker/formatter under catch_unwind; nesting ladder through the real CLI',
+    text="Every string of length <=3 (quick) / <=4 (thorough) over a 40-character alphabet (ASCII classes, multi-byte characters, Unicode whitespace), every sequence of <=3 / <=4 lexemes over 67 lexemes with every space/newline separator combination, every single-token delete/insert/replace and every truncation of every .gdn file in the repository, and a nesting ladder of 26 self-embedding constructs run as separate CLI processes. A panic, abort, signal or hang anywhere in lex+parse+check+format is a violation. Exhaustive within these bounds; 'any length' is covered only by the edit and ladder families.",
+    note='In-process adapter mirrors `garden check`/`format`/`reftest-ast`; each panic signature is re-run through the real CLI (or the LSP formatting request) before it is reported. Inputs longer than the bounds that are not single edits of a seed are not covered.',
+    design_ref='DESIGN.md §6 C01',
+)
+
 import glob, os, itertools
 from ..core import Machinery
 from ..build import REPO
